@@ -420,9 +420,10 @@ class T:
             out.append(f"def {en}.memberName : {en} → String")
             out += [f"  | .{m} => \"{m}\"" for m, _ in ms]
             out.append("")
-        out.append("/-- the builder: its state object, `GCodeCore._distance_mode` / `_current_axes` / `_current_params`, and what has been handed to `GCodeCore.write` -/")
+        out.append("/-- the builder: its state object, `GCodeCore._distance_mode` / `_current_axes` / `_current_params`, the registered hooks "
+                   "(`GCodeBuilder._hooks`, described as data), what has been handed to `GCodeCore.write`, and the hook calls made -/")
         out.append("structure BSt where\n  state : GState\n  _distance_mode : DistanceMode\n  _current_axes : Pt\n  _current_params : Builder.Params\n"
-                   "  out : List SStmt\nderiving DecidableEq, Repr\n")
+                   "  _hooks : List Hook\n  out : List SStmt\n  calls : List HookCall\nderiving DecidableEq, Repr\n")
         out.append("/-- `GCodeCore.write(statement)`: the statement goes to the writers -/")
         out.append("def coreWrite (s : BSt) (st : SStmt) : BSt := { s with out := s.out ++ [st] }\n")
         out.append("/-- `GCodeCore._update_axes(axes, params)`: `_current_params.update(params)`, then `_current_axes = axes` -/")
